@@ -163,7 +163,7 @@ def run_kani_engine(prop, spec, tier):
                 continue
             per_h[h.name] = (h, analyse_block(blk), blk)
     ko.cmd = " ;; ".join("cd %s && CARGO_TARGET_DIR=%s %s" % (extract.REPO, KANI_TARGET, c) for c in cmds)
-    bdir = os.path.join(ROOT, "build", prop)
+    bdir = os.path.join(os.environ.get("VERIF_OUT", ROOT), "build", prop)
     os.makedirs(bdir, exist_ok=True)
     open(os.path.join(bdir, "kani.log"), "w").write("\n".join(allout)[-3_000_000:])
 
